@@ -2,6 +2,7 @@ package main
 
 import (
 	"fmt"
+	"strings"
 	"go/token"
 	"go/types"
 
@@ -62,7 +63,7 @@ func fieldsInSlice(vals []ssa.Value) map[*types.Var]bool {
 
 func runC17(w *World, r *Report) {
 	r.Rule("C17-R1", "write-through agreement", "every store.Put(key, X.ConvertToMetaMsg()) in UpdateTaskDrop*Msg has a map assignment tables[task][msg] = X from the same variable X, with no write to X between the two reads", 6)
-	r.Rule("C17-R2", "removal covers every table", "every map field of ReplicateMeteImpl written by an Update* method is deleted from in RemoveTaskMsg under the same (task,msg) key, and the store key is removed", 3)
+	r.Rule("C17-R2", "removal covers every table", "every map field of ReplicateMeteImpl written by an Update* method is deleted from in RemoveTaskMsg under the same (task,msg) key, and the store key is removed", 4)
 	r.Rule("C17-R3", "reload exhaustiveness", "Reload has a case for every MetaMsgType constant and assigns into every table", 4)
 	r.Rule("C17-R4", "merge is a union; readiness is of the persisted value", "in the merge branch X.Base.ReadyChannels = lo.Union(old, new); the bool returned on success is X.Base.IsReady() of the X that was persisted", 8)
 	r.Rule("C17-R5", "one key for memory and store", "the MsgID/TaskID used for the in-memory entry equal those given to GetMetaKey for the Put", 6)
@@ -251,6 +252,104 @@ func runC17(w *World, r *Report) {
 		}
 	}
 
+	// R6 / R7: store write inside the lock span; no success without write-through
+	r.Rule("C17-R6", "store write inside the critical section", "every store.Put / store.Remove of ReplicateMeteImpl's update and remove paths executes with metaLock held for writing (Put) so that memory and store are updated as one step", 6)
+	r.Rule("C17-R7", "no success without write-through", "every success return of UpdateTaskDrop*Msg is dominated by a store.Put whose error was tested", 6)
+	r.Rule("C17-R8", "store operations are exact", "EtcdReplicateStore: Put/Remove address exactly rootPath/key (no WithPrefix); Get uses WithPrefix only on the withPrefix branch", 3)
+	for _, name := range []string{"UpdateTaskDropCollectionMsg", "UpdateTaskDropPartitionMsg"} {
+		fn := w.Func(pkgMeta, "ReplicateMeteImpl", name)
+		if fn == nil {
+			continue
+		}
+		puts := callsIn(fn, false, putSym)
+		for i, p := range puts {
+			held := w.locksHeldAt(p)
+			r.Check(heldSuffix(held, ".metaLock", "W"), "C17-R6", fmt.Sprintf("(*ReplicateMeteImpl).%s | Put#%d under metaLock", name, i+1), p.Pos(), "write lock held", "the store write happens outside the metaLock span: two concurrent reports can persist their snapshots in the opposite order of their in-memory merges, leaving the store behind memory")
+		}
+		k := 0
+		eachInstr(fn, func(in ssa.Instruction) {
+			ret, ok := in.(*ssa.Return)
+			if !ok || ret.Block().Comment == "recover" {
+				return
+			}
+			if !isNilConst(returnedValue(ret, 1)) {
+				return
+			}
+			k++
+			okPut := false
+			for _, p := range puts {
+				if instrDominates(p, ret) {
+					okPut = true
+				}
+			}
+			r.Check(okPut, "C17-R7", fmt.Sprintf("(*ReplicateMeteImpl).%s | success return #%d", name, k), ret.Pos(), "dominated by a store.Put", "a report is acknowledged without having been written through to the store (a report whose earlier write failed is never repaired)")
+		})
+		if len(puts) == 0 {
+			r.Fail("C17-R6", "(*ReplicateMeteImpl)."+name+" | Put census", fn.Pos(), "no store.Put call in this function: memory and store are no longer updated together")
+		}
+	}
+	for _, m := range []string{"Put", "Remove", "Get"} {
+		fn := w.Func(pkgMeta, "EtcdReplicateStore", m)
+		cons := "(*EtcdReplicateStore)." + m + " | exact addressing"
+		if fn == nil {
+			r.Undecided("C17-R8", cons, 0, "anchor not found")
+			continue
+		}
+		okx, det := true, ""
+		n := 0
+		eachInstr(fn, func(in ssa.Instruction) {
+			c, ok := in.(*ssa.Call)
+			if !ok || !strings.Contains(callSym(c.Common()).pkg, "etcd/client/v3") {
+				return
+			}
+			nm := callSym(c.Common()).name
+			if nm != "Put" && nm != "Delete" && nm != "Get" {
+				return
+			}
+			n++
+			wp := false
+			for _, v := range backSlice(c.Call.Args[len(c.Call.Args)-1], SliceOpts{MaxDepth: 5}) {
+				if cc, isC := v.(*ssa.Call); isC && callSym(cc.Common()).name == "WithPrefix" {
+					wp = true
+				}
+			}
+			if m != "Get" && wp {
+				okx, det = false, "the store "+strings.ToLower(m)+" uses WithPrefix: removing message 'drop-collection-7' also removes 'drop-collection-71'"
+			}
+			if m == "Get" && wp {
+				// must be on the withPrefix == true branch
+				guarded := false
+				for _, b := range fn.Blocks {
+					cond, t, _, isIf := ifSuccs(b)
+					if isIf && cond == ssa.Value(fn.Params[3]) && (t == c.Block() || t.Dominates(c.Block())) {
+						guarded = true
+					}
+				}
+				if !guarded {
+					okx, det = false, "a prefix read is made although the caller asked for an exact key"
+				}
+			}
+			// key = rootPath + "/" + key
+			kp := c.Call.Args[len(c.Call.Args)-2]
+			if nm == "Put" {
+				kp = c.Call.Args[len(c.Call.Args)-3]
+			}
+			hasRoot, hasKey := false, false
+			for _, v := range backSlice(kp, SliceOpts{MaxDepth: 6}) {
+				if strings.HasSuffix(w.accessPath(v), ".rootPath") {
+					hasRoot = true
+				}
+				if v == ssa.Value(fn.Params[2]) {
+					hasKey = true
+				}
+			}
+			if !hasRoot || !hasKey {
+				okx, det = false, "the etcd key is not rootPath + \"/\" + key"
+			}
+		})
+		r.Check(okx && n > 0, "C17-R8", cons, fn.Pos(), "exact key under the root path", det)
+	}
+
 	// R2
 	rm := w.Func(pkgMeta, "ReplicateMeteImpl", "RemoveTaskMsg")
 	if rm == nil {
@@ -292,6 +391,22 @@ func runC17(w *World, r *Report) {
 		for _, f := range sortedVars(written) {
 			r.Check(deleted[f], "C17-R2", "(*ReplicateMeteImpl).RemoveTaskMsg | delete from "+f.Name(), rm.Pos(), "entry deleted", fmt.Sprintf("table %s is written by the Update methods but RemoveTaskMsg never deletes from it: the message stays in memory", f.Name()))
 		}
+		// only the named message: no delete of a whole task entry, no delete inside a loop
+		onlyOne := true
+		eachInstr(rm, func(in ssa.Instruction) {
+			c, ok := in.(*ssa.Call)
+			if !ok {
+				return
+			}
+			b, ok := c.Call.Value.(*ssa.Builtin)
+			if !ok || b.Name() != "delete" {
+				return
+			}
+			if c.Call.Args[1] != ssa.Value(rm.Params[3]) || loopHeaderOf(c.Block()) != nil {
+				onlyOne = false
+			}
+		})
+		r.Check(onlyOne, "C17-R2", "(*ReplicateMeteImpl).RemoveTaskMsg | removes exactly the named message", rm.Pos(), "every delete is keyed by the msgID parameter, outside loops", "RemoveTaskMsg deletes entries other than the named message (whole task or a loop): memory and store no longer agree on what was removed")
 	}
 
 	// R3
